@@ -14,7 +14,7 @@ class Contract:
                  transparent=False, props=(), locals=None, gen=None, hints=None, consts=None, canary=None,
                  trusted=False, note="", bind=None, known=None, pure=True, native_args=None, decreases=None,
                  ghost=None, native=True, slice=None, path_limit=None, timeout=None, native_ensures=None,
-                 bounded_only=False, assumes=(), cases=None, params=None, shards=1, reveal=(), ignore=()):
+                 bounded_only=False, assumes=(), cases=None, params=None, shards=1, reveal=(), ignore=(), extract=None):
         self.qual = qual
         self.args = OrderedDict(args)  # name -> type string
         self.returns = returns
@@ -47,6 +47,7 @@ class Contract:
         self.cases = cases
         self.shards = shards
         self.reveal = list(reveal)
+        self.extract = extract  # callable(FunctionDef) -> FunctionDef: mechanical extraction of the verified text from the real AST
         self.ignore = list(ignore)  # class-level locations used for logging only: reads are arbitrary, writes dropped (listed)
         self.params = params  # parameter names of an external callee that has no source in /repo (always trusted)  # extra assumptions (listed in evidence), e.g. about opaque callees
 
@@ -145,6 +146,8 @@ def record(name, fields):
 
 def enum_from_repo(rel, cname):
     from . import front
+    if cname in T.ENUMS:
+        return T.ENUMS[cname]
     mem = front.enum_members(rel, cname)
     e = T.TEnum(cname, [m for m, _ in mem], mem)
     e.rel = rel
